@@ -406,6 +406,11 @@ func (eng *Engine) modifiesKeys(c *FuncContract, fn *ssa.Function) *WriteSet {
 	for k := range st.heap.m {
 		w.keys[k] = true
 	}
+	for _, gs := range c.GhostSets {
+		if g, ok := eng.contracts.Ghosts[gs.Var]; ok {
+			w.keys[regKey("GH:"+gs.Var, eng.ghostSort(g))] = true
+		}
+	}
 	w.alloc = true
 	return w
 }
